@@ -351,7 +351,7 @@ func genSeq(r *vh.Rand, big bool, nonCmd uint64) []op {
 }
 
 func gen(a vh.Args) {
-	n := 60
+	n := 120
 	if a.Tier == "thorough" {
 		n = 1500
 	}
